@@ -18,14 +18,18 @@ ASSUMPTIONS = ['torch is the trusted base for dense semantics', 'operands of dif
                'IEEE-special defaults: operations that do arithmetic on the default with Python math are judged only for '
                'defaults where Python and IEEE agree (listed per operation in the check source)']
 CHUNK = 2
-CASE_TIMEOUT_S = 300.0     # a case is a block of patterns x all partners x default pairs x ~30 operations
+CASE_TIMEOUT_S = 600.0     # a case is a block of patterns x all partners x default pairs x ~30 operations
 inf, nan = math.inf, math.nan
 DEFAULTS = (0., 1., 5., -inf, inf, nan)
 
 
 def bounds(tier):
-    return {'types': 11 if tier == 'thorough' else 11, 'dims': 2, 'max_physical_axes': 2, 'numel_cap': 18,
-            'composition_catalogue': 'TYPES_SMALL, depth 2 + binary + structural'}
+    return {'types': 11, 'dims': 2, 'max_physical_axes': 2, 'numel_cap': 18,
+            'composition_catalogue': 'TYPES_SMALL, unary depth %d + binary on the first %d states of each (shape, type) group + structural on the first %d results' % COMP[tier],
+            'composition_unary_depth': COMP[tier][0], 'composition_group_cap': COMP[tier][1], 'composition_result_cap': COMP[tier][2]}
+
+
+COMP = {'quick': (2, 14, 400), 'thorough': (3, 40, 4000)}
 
 
 def gen_cases(tier, seed):
@@ -38,7 +42,7 @@ def gen_cases(tier, seed):
             yield ('B', i, lo, min(n, lo + 2))
     cat2 = P.catalogue(2, 2, 12, P.TYPES_SMALL)
     for i, tt in enumerate(cat2):
-        yield ('C', i)
+        yield ('C', i) + COMP[tier]
     for n in (3, 4):
         for dims in (1, 2):
             yield ('K', n, dims)
@@ -554,6 +558,8 @@ def part_comp(case, r):
     cat = P.catalogue(2, 2, 12, P.TYPES_SMALL)
     tt = list(cat)[case[1]]
     un, bi, st = comp_unary(), comp_binary(), comp_struct()
+    depth, gcap, rcap = case[2:5] if len(case) >= 5 else COMP['quick']
+    ccase = ('C', case[1], depth, gcap, rcap)
     # level 0: all patterns x defaults {0,1}
     states = {}
     frontier = []
@@ -572,7 +578,7 @@ def part_comp(case, r):
             res = f(*args)
             exp = g(*dargs)
         except ptinv.RepInvariantError as e:
-            bad(r, 'representation-invariant', name, 'composition %r: %s' % (hist, e), ('C', case[1]), ('C', hist))
+            bad(r, 'representation-invariant', name, 'composition %r: %s' % (hist, e), ccase, ('C', hist))
             return None
         except Warning as w:
             r.excl['composition leaves the well-typed scope (warning)'] += 1
@@ -580,25 +586,25 @@ def part_comp(case, r):
         except RuntimeError as e:
             if name.startswith('reshape'):
                 return None
-            r.exc(e, name, ('C', case[1]), ('C', hist))
+            r.exc(e, name, ccase, ('C', hist))
             return None
         except Exception as e:
-            r.exc(e, name, ('C', case[1]), ('C', hist), msg='composition %r raised %s: %s' % (hist, type(e).__name__, str(e)[:160]))
+            r.exc(e, name, ccase, ('C', hist), msg='composition %r raised %s: %s' % (hist, type(e).__name__, str(e)[:160]))
             return None
         if isinstance(res, PatternedTensor):
             rd = res.to_dense()
             if not eqn(rd, exp):
-                bad(r, 'mismatch', name, 'composition %r gives %r, torch gives %r' % (hist, rd.tolist(), exp.tolist()), ('C', case[1]), ('C', hist))
+                bad(r, 'mismatch', name, 'composition %r gives %r, torch gives %r' % (hist, rd.tolist(), exp.tolist()), ccase, ('C', hist))
                 return None
             r.ok(None, outcome=None, nontrivial=False)
             return res, exp
         if res != exp:
-            bad(r, 'mismatch', name, 'composition %r gives %r, torch gives %r' % (hist, res, exp), ('C', case[1]), ('C', hist))
+            bad(r, 'mismatch', name, 'composition %r gives %r, torch gives %r' % (hist, res, exp), ccase, ('C', hist))
         else:
             r.ok(None, nontrivial=False)
         return None
     # two levels of unary ops
-    for level in range(2):
+    for level in range(depth):
         nxt = []
         for k in frontier:
             t, d, hist = states[k]
@@ -622,14 +628,16 @@ def part_comp(case, r):
         byshape.setdefault((tuple(d.shape), tuple(h for h in hist[3:] if h in ('T', 'flatten', 'unsqueeze0', 'getitem0', 'expand2'))), []).append(k)
     results = []
     for grp in byshape.values():
-        grp = grp[:14]
+        if len(grp) > gcap:
+            r.excl['composition group beyond the cap (binary ops not applied)'] += len(grp) - gcap
+        grp = grp[:gcap]
         for ka in grp:
             for kb in grp:
                 ta, da, ha = states[ka]
                 tb, db, hb = states[kb]
                 for name, f, g in bi:
                     out = apply(name, f, g, (ta, tb), (da, db), (ha, name, hb))
-                    if out is not None and len(results) < 400:
+                    if out is not None and len(results) < rcap:
                         results.append((out[0], out[1], (ha, name, hb)))
     for t, d, hist in results:
         if t.ndim == 0:
